@@ -170,3 +170,24 @@ func TestLiveHeap(t *testing.T) {
 		g.exec(strings.Replace(q, "{", fmt.Sprintf("{ a%d: __typename ", n), 1))
 	}
 }
+
+// C20_SEQ='[fed:]query ## {"vars":...} ;; query ## vars' executes a request sequence on the shared rig.
+func TestSeq(t *testing.T) {
+	if os.Getenv("C20_SEQ") == "" {
+		t.Skip()
+	}
+	for _, st := range strings.Split(os.Getenv("C20_SEQ"), ";;") {
+		name := "plain"
+		st = strings.TrimSpace(st)
+		if strings.HasPrefix(st, "fed:") {
+			name, st = "fed", st[4:]
+		}
+		q, vars, _ := strings.Cut(st, "##")
+		g, err := rigByName(name)
+		if err != nil {
+			t.Fatal(err)
+		}
+		r := g.execVars(strings.TrimSpace(q), strings.TrimSpace(vars))
+		fmt.Printf("Q[%s] %s  vars=%s\n  rpcs=%v err=%q\n  %s\n", name, strings.TrimSpace(q), strings.TrimSpace(vars), r.RPCs, r.Err, clip(r.Body))
+	}
+}
